@@ -18,6 +18,8 @@ STRENGTHENED = {
     "C11-r2": "name-table differential against the fresh gateway in lagging histories (ResolveOK); was caught before only through a crash",
     "C12-r2": "overlapping requests with one review held in flight (AuthCache.tla Pair / Flight)",
     "C13-r2": "lease ground truth for served calls, leadership lost while the store's stop is slow",
+    "C16-r2": "accepted objects applied as UPDATES of other accepted objects (pairs), serving material of a second key pair",
+    "C19-r2": "operation-vs-flush/stop races under the cooperative scheduler (caught before only by one random trace)",
 }
 rows = []
 for d in sorted(glob.glob("/verif/seeded/C*")):
